@@ -372,6 +372,36 @@ func H_C14_admin() {
 	}
 }
 
+// H_C14_create_race: two CreateTable requests for the same new name overlap, all interleavings:
+// exactly one creates the table, the other answers AlreadyExists, and the table is the winner's.
+func H_C14_create_race() {
+	eng := vChoice("engine", 0, vBound("engines", 0, 1))
+	s := vNewServer(eng, func() bigtable.Timestamp { return 0 })
+	var errs [2]error
+	fams := []string{"f", "g"}
+	for i := 0; i < 2; i++ {
+		i := i
+		vGo(func() {
+			_, errs[i] = s.CreateTable(vCtx(), &btapb.CreateTableRequest{Parent: c14ParentI, TableId: "t", Table: &btapb.Table{
+				ColumnFamilies: map[string]*btapb.ColumnFamily{fams[i]: {}}}})
+		})
+	}
+	vJoin()
+	wins := 0
+	for i := 0; i < 2; i++ {
+		if errs[i] == nil {
+			wins++
+			got, err := s.GetTable(vCtx(), &btapb.GetTableRequest{Name: c14Name(0)})
+			vAssert(err == nil && got != nil && len(got.ColumnFamilies) == 1 && got.ColumnFamilies[fams[i]] != nil, "create-race:table-is-the-winner's")
+		} else {
+			vAssert(vCodeOf(errs[i]) == codes.AlreadyExists, "create-race:loser-gets-alreadyexists")
+		}
+	}
+	vAssert(wins == 1, "create-race:exactly-one-create-succeeds")
+	vReach("c14-create-race")
+}
+
 func init() {
+	vHarnesses["H_C14_create_race"] = H_C14_create_race
 	vHarnesses["H_C14_admin"] = H_C14_admin
 }
